@@ -50,10 +50,10 @@ type regexCase struct {
 func classifyInspectErr(err error) string {
 	m := err.Error()
 	switch {
-	case strings.Contains(m, "generation expression for column"):
-		return "gen-not-found"
 	case strings.Contains(m, "unexpected empty generation expression"):
 		return "gen-empty"
+	case strings.Contains(m, "generation expression for column"):
+		return "gen-not-found"
 	case strings.Contains(m, "was not found for AUTOINCREMENT"):
 		return "autoinc-no-column"
 	case strings.Contains(m, "unexpected primary key"):
